@@ -629,3 +629,19 @@ func SiteEdges() []string {
 	sort.Strings(l)
 	return l
 }
+
+// Leaked lists the monitored mutexes that are still held. Asked when every
+// goroutine that could hold one has finished, anything listed is a lock that
+// was never released (an early return between Lock and Unlock).
+func Leaked() []string {
+	state.Lock()
+	defer state.Unlock()
+	var out []string
+	for g, hl := range heldBy {
+		for _, h := range hl {
+			out = append(out, fmt.Sprintf("%s taken at %s by goroutine %d", names[h.m], h.site, g))
+		}
+	}
+	sort.Strings(out)
+	return out
+}
